@@ -117,7 +117,7 @@ def up (h : H κ ν) (j : Nat) : Nat → H κ ν
   | 0 => h
   | fuel + 1 =>
     let i := (j - 1) / 2
-    if i = j || !less h j i then h else up (swap h i j) i fuel
+    if i = j ∨ less h j i = false then h else up (swap h i j) i fuel
 
 /-- The loop of `heap.down(h, i0, n)`: returns the heap and the final position. -/
 def downLoop (h : H κ ν) (i n : Nat) : Nat → H κ ν × Nat
@@ -125,8 +125,8 @@ def downLoop (h : H κ ν) (i n : Nat) : Nat → H κ ν × Nat
   | fuel + 1 =>
     let j1 := 2 * i + 1
     if j1 ≥ n then (h, i) else
-    let j := if j1 + 1 < n && less h (j1 + 1) j1 then j1 + 1 else j1
-    if !less h j i then (h, i) else downLoop (swap h i j) j n fuel
+    let j := if j1 + 1 < n ∧ less h (j1 + 1) j1 = true then j1 + 1 else j1
+    if less h j i = false then (h, i) else downLoop (swap h i j) j n fuel
 
 /-- `heap.down(h, i0, n)`: the heap and whether the element moved. -/
 def down (h : H κ ν) (i0 n : Nat) : H κ ν × Bool :=
@@ -160,7 +160,11 @@ def removeAt (h : H κ ν) (i : Nat) : H κ ν :=
   h1.pop
 
 /-- `items[key]`: position of the entry with that key. -/
-def find (h : H κ ν) (k : κ) : Option Nat := h.findIdx? (fun e => decide (e.value.key = k))
+def find (h : H κ ν) (k : κ) : Option Nat :=
+  (List.range h.size).find? fun i =>
+    match h[i]? with
+    | some e => decide (e.value.key = k)
+    | none => false
 
 /-- `queue.Insert(r, true)`. -/
 def insert (h : H κ ν) (r : Item κ ν) : H κ ν :=
